@@ -52,14 +52,15 @@ def solve_and_judge(case, which, in_situ=True):
         return {'verdict': 'inconclusive', 'reason': 'exact re-solution failed: %r' % (e,), 'shape': shape}
     T = spec['maxtime']
     J = MC.Judge(E, k_from_for(spec), T)
-    if 'ledger' in which:
-        MC.check_ledgers(J, b, spec)
-    if 'zone' in which:
-        MC.check_zone_conservation(J, b, spec)
-    if 'markets' in which:
-        MC.check_markets(J, b, spec)
-    if 'fx' in which:
-        MC.check_fx(J, b, spec)
+    for name, fn in (('ledger', MC.check_ledgers), ('zone', MC.check_zone_conservation),
+                     ('markets', MC.check_markets), ('fx', MC.check_fx)):
+        if name not in which:
+            continue
+        try:
+            fn(J, b, spec)
+        except KeyError as e:
+            # a variable the spec's declarations imply (a flow, a supply, an interest payment) does not exist
+            J.violate('declared_variable_missing_in_built_model', {'checker': name, 'missing': str(e)[:200]})
     for k_, v in J.counts.items():
         rec.count(k_, v)
     rec.violations.extend(J.violations)
